@@ -173,6 +173,10 @@ def check_shard(res, node, lt, shard, uid, schema, events, probes, level, witnes
                 if must:
                     res.nontrivial((sname, p["kind"], p["op"], p["cls"], seg_level))
                 missed = [z for z in must if z not in ans]
+                if missed and p["kind"] == "u64":
+                    # attribution: does the ruled-out zone hold a u64 value above i64::MAX (stored on another encoding lane)?
+                    sig = dict(sig, zone_holds_u64_above_i64_max=any(isinstance(e["payload"].get(p["column"]), int) and e["payload"][p["column"]] > 2 ** 63 - 1
+                                                                      for z in missed for e in zs[z]))
                 if missed:
                     ex = [(e["k"], e["payload"].get(p["column"], e["ctx"])) for e in zs[missed[0]]][:4]
                     res.violation("zone_ruled_out", sig,
